@@ -30,7 +30,7 @@ def plan(tier):
 
 def required_counters(tier):
     return ["unsorted_first_appearance", "unused_category", "observed_only_false", "sort_false", "multi_column", "column_independence_checked",
-            "names_checked", "unobserved_label"] + [f"shape:{s}" for s in SHAPES]
+            "names_checked", "unobserved_label", "observed_chunked_keys"] + [f"shape:{s}" for s in SHAPES]
 
 
 def features(case):
@@ -110,6 +110,8 @@ def check(case, ctx):
     gb = lib.call(GroupBy, keys_obj, sort=case["sort"])
     if lib.raised(gb):
         return [{"monitor": "c11.raised", "sig": "construct", "detail": f"GroupBy raised {gb!r}"}]
+    if getattr(gb, "key_is_chunked", False):
+        ctx.count("observed_chunked_keys")
     values, colnames = build_values(case)
     mask = gen.mask_obj(case["mask"])
     kw = {"observed_only": False} if not case["observed_only"] else {}
@@ -233,6 +235,9 @@ def gen_case(rng, dtypes):
     case = {"n": n, "keys": keys, "vals": vals, "val": vals[0], "mask": gen.gen_mask(rng, n, kind=gen.pick(rng, ["none", "none", "bool", "slice"]), lkeys=lk),
             "op": op, "shape": shape, "sort": bool(rng.random() < 0.65), "observed_only": bool(rng.random() < 0.7),
             "keys_as": gen.pick(rng, ["list", "list", "dict"]) if nk > 1 or rng.random() < 0.1 else "list", "params": {}}
+    if nk == 1 and keys[0]["kind"] != "cat" and n >= 4 and rng.random() < 0.2:
+        # labels, names and order must not depend on the route: chunk-wise factorization (scaled threshold, applied by the worker)
+        case["strategy"] = {"chunk_threshold": int(gen.pick(rng, [2, 4])), "key_chunks": int(rng.integers(2, 6))}
     return case
 
 
